@@ -54,6 +54,32 @@ class C02(Check):
                             "g": [{"c": {"p": 1.0, "i": -1.0}, "k": float(rng.randint(0, 3))}]}
                 out.append({"op": "quotient", "c1": dividend, "c2": divisor, "addl": [], "simplify": rng.random() < 0.6, "order": rand_order(rng), "tag": "g1-implies-a1"})
                 continue
+            if m < 0.19:
+                # the dividend's guarantee sums three variables that only the divisor's assumptions (shared inputs) bound, through a
+                # system that is (or just fails to be) column-dominant: tactic 1 must take all three rows or decline
+                c13 = rng.choice([0.6, 0.5, 0.75, 0.25, 0.4])
+                c23 = rng.choice([0.6, 0.5, 0.75, 0.25, 0.4])
+                asm = [{"c": {"v0": 1.0, "v1": c13}, "k": 1.0}, {"c": {"v1": 1.0}, "k": 1.0}, {"c": {"v2": 1.0, "v1": c23}, "k": 1.0}, {"c": {"v1": -1.0}, "k": 0.0}]
+                dividend = {"ins": ["v0", "v1", "v2"], "outs": ["o"], "a": [dict(c=dict(t["c"]), k=t["k"]) for t in asm],
+                            "g": [{"c": {"o": 1.0, "v0": 1.0, "v1": 1.0, "v2": 1.0}, "k": float(rng.randint(6, 12))}]}
+                divisor = {"ins": ["v0", "v1", "v2"], "outs": ["x"], "a": [dict(c=dict(t["c"]), k=t["k"]) for t in asm], "g": [{"c": {"x": 1.0}, "k": 5.0}]}
+                if rng.random() < 0.3:
+                    rng.shuffle(dividend["a"])
+                out.append({"op": "quotient", "c1": dividend, "c2": divisor, "addl": [], "simplify": rng.random() < 0.6,
+                            "order": [1, 2, 3, 4, 5] if rng.random() < 0.7 else rand_order(rng), "tag": "kay3"})
+                continue
+            if m < 0.26:
+                # a dividend guarantee with a NEGATIVE coefficient on a divisor output that the divisor bounds from below only through
+                # a chain over another of its outputs: tactic 4 has to follow the chain through the lower-bound branch
+                k1, k2, k3 = float(rng.randint(0, 3)), float(rng.randint(1, 6)), float(rng.randint(1, 4))
+                dividend = {"ins": ["i"], "outs": ["o", "v", "w"], "a": [{"c": {"i": 1.0}, "k": 1.0}], "g": [{"c": {"o": 1.0, "v": -1.0}, "k": float(rng.randint(5, 12))}]}
+                divisor = {"ins": ["i"], "outs": ["v", "w", "z"], "a": [],
+                           "g": [{"c": {"w": 1.0, "v": -1.0}, "k": k1}, {"c": {"w": 1.0, "z": -1.0}, "k": k2}, {"c": {"z": 1.0, "w": -1.0}, "k": k3}]}
+                if rng.random() < 0.3:
+                    rng.shuffle(divisor["g"])
+                out.append({"op": "quotient", "c1": dividend, "c2": divisor, "addl": [], "simplify": rng.random() < 0.6,
+                            "order": [1, 2, 3, 4, 5] if rng.random() < 0.7 else rand_order(rng), "tag": "chain4"})
+                continue
             if m < 0.65:
                 try:
                     top = G.un_contract(G.mk_contract(c1, simplify=False).compose(G.mk_contract(h, simplify=False)))
